@@ -42,14 +42,20 @@ Definition pinv_table (calls : list (list (list Z) * list (list float))) (G : li
   | None => []
   end.
 
-Definition close_vals (vals : list float) (m : list Q) : bool :=
-  forallb ffinite vals && all2 closeb (map f2q vals) m.
+(* tolerances are relative to the scale of the data: atol = 1e-12 * max |data| (squared for sem^2) *)
+Definition qmaxabs (l : list Q) : Q :=
+  fold_left (fun m x => if Qle_bool m (Qabsb x) then Qred (Qabsb x) else m) l 0%Q.
+Definition dscale (d : list (list float)) : Q := qmaxabs (map (fun r => qmaxabs (map f2q r)) d).
+
+Definition close_vals (sc : Q) (vals : list float) (m : list Q) : bool :=
+  forallb ffinite vals && all2 (closeb_tol rtol_default (atol_default * sc)%Q) (map f2q vals) m.
 
 (* a standard error y against the model's squared value *)
-Definition sem_ok (y : float) (m : option Q) : bool :=
+Definition sem_ok (sc : Q) (y : float) (m : option Q) : bool :=
   match m with
   | None => negb (ffinite y)
-  | Some v => ffinite y && Qle_bool 0 (f2q y) && closeb (f2q y * f2q y)%Q v
+  | Some v => ffinite y && Qle_bool 0 (f2q y) &&
+              closeb_tol rtol_default (atol_default * sc * sc)%Q (f2q y * f2q y)%Q v
   end.
 
 Definition flat3 {A} (h : list (list (list A))) : list A := List.concat (map (@List.concat A) h).
@@ -69,9 +75,9 @@ Definition with_shape3 {A} (len : nat) (r : res (list (list (list A)))) : res (l
 Definition with_shape2 {A} (len : nat) (r : res (list (list A))) : res (list nat * list A) :=
   match r with Ok h => Ok (shape2 h len, flat2 h) | Err e => Err e end.
 
-Definition et_item_ok (offset dt : Z) (m : list (list Q)) (o : list (list float) * Z * Z) : bool :=
+Definition et_item_ok (sc : Q) (offset dt : Z) (m : list (list Q)) (o : list (list float) * Z * Z) : bool :=
   let '(segs, t0, dt') := o in
-  all2 close_vals segs m && (t0 =? out_t0 offset dt) && (dt' =? out_dt dt).
+  all2 (close_vals sc) segs m && (t0 =? out_t0 offset dt) && (dt' =? out_dt dt).
 
 Definition check (c : kcase) : bool :=
   match c with
@@ -83,26 +89,26 @@ Definition check (c : kcase) : bool :=
       end
   | KFIR data ev len offset dt calls out =>
       finite_data data &&
-      cmp_arr close_vals (with_shape3 len (FIR (pinv_table calls) (qdata data) ev len offset)) offset dt false out
+      cmp_arr (close_vals (dscale data)) (with_shape3 len (FIR (pinv_table calls) (qdata data) ev len offset)) offset dt false out
   | KEta data ev len offset dt bc zs out =>
       finite_data data &&
-      cmp_arr close_vals (with_shape3 len (eta_ts (qdata data) ev len offset bc zs)) offset dt true out
+      cmp_arr (close_vals (dscale data)) (with_shape3 len (eta_ts (qdata data) ev len offset bc zs)) offset dt true out
   | KEts data ev len offset dt bc zs out =>
       finite_data data &&
-      cmp_arr (all2 sem_ok) (with_shape3 len (ets_ts (qdata data) ev len offset bc zs)) offset dt true out
+      cmp_arr (all2 (sem_ok (dscale data))) (with_shape3 len (ets_ts (qdata data) ev len offset bc zs)) offset dt true out
   | KEtData data ev len offset dt out =>
       finite_data data &&
       match et_data_ts (qdata data) ev len offset, out with
-      | Ok m, OutEt o => all2 (all2 (et_item_ok offset dt)) m o
+      | Ok m, OutEt o => all2 (all2 (et_item_ok (dscale data) offset dt)) m o
       | Err e, OutErr e' => err_eqb e e'
       | _, _ => false
       end
   | KEtaEv data times len offset dt bc zs out =>
       finite_data data &&
-      cmp_arr close_vals (with_shape2 len (eta_events (qdata data) times dt len offset bc zs)) offset dt true out
+      cmp_arr (close_vals (dscale data)) (with_shape2 len (eta_events (qdata data) times dt len offset bc zs)) offset dt true out
   | KEtsEv data times len offset dt bc zs out =>
       finite_data data &&
-      cmp_arr (all2 sem_ok) (with_shape2 len (ets_events (qdata data) times dt len offset bc zs)) offset dt true out
+      cmp_arr (all2 (sem_ok (dscale data))) (with_shape2 len (ets_events (qdata data) times dt len offset bc zs)) offset dt true out
   end.
 
 (* generated-fact side: which estimators read the two flags (reflection on the getters' code objects).
